@@ -63,13 +63,13 @@ CLAIMS = {
         'design_ref': 'DESIGN.md section 5, C15',
     },
     'C19': {
-        'text': "Lean theorems C15.history_independent (printing / querying never changes the printer a later print uses: it depends on the registration history alone) and C19.pure_function (no hidden state reaches the model). Runtime part (partial): a corpus of 83 values (built-ins, cycles, shared substructure, both zeros, stdlib types incl. struct sequences, unregistered objects, predicate-registered printers, same-named classes) printed (a) as every ordered pair and sampled triples from a forked state in which nothing has been printed yet, (b) in random permutations with repetitions under several settings, every output compared with the one obtained when the value is printed first in a fresh interpreter; canonical deep snapshots of all inputs before and after.",
+        'text': "Lean theorems C15.history_independent (printing / querying never changes the printer a later print uses: it depends on the registration history alone) and C19.pure_function (no hidden state reaches the model). C19.state_inventory ties that to the source: the list of call-outliving state visible in the package's syntax (globals rebound from functions, module-level objects mutated in place, caching / dispatching decorators, mutable defaults, class-level mutable displays), regenerated from /repo on every run, equals the list of state components the models account for (registry, default configuration, cpprint's style, install hooks) - a new memo table or cache breaks the theorem. Runtime part (partial): a corpus of 83 values (built-ins, cycles, shared substructure, both zeros, stdlib types incl. struct sequences, unregistered objects, predicate-registered printers, same-named classes) printed (a) as every ordered pair and sampled triples from a forked state in which nothing has been printed yet, (b) in random permutations with repetitions under several settings, every output compared with the one obtained when the value is printed first in a fresh interpreter; canonical deep snapshots of all inputs before and after.",
         'note': "partial: input immutability cannot be stated over immutable model values and is checked by snapshots only; mutation through user __eq__/__hash__/__missing__ side effects or generators is not covered",
         'technique': 'Lean 4 proof (history independence via the C15 refinement) + fresh-interpreter / permutation / snapshot exploration',
         'design_ref': 'DESIGN.md section 5, C19',
     },
     'C20': {
-        'text': "Lean theorem C20.linearizable: in the small-step model of pretty_python_value's registry part (one step per access to the deferred dict / singledispatch object, after the F16 repair), for ANY number of threads, ANY classes, ANY starting registry state and EVERY schedule, each finished thread obtained exactly the printer a sequential print obtains; the model is total, so no step can raise. Proof: global invariant (effective registrations constant, deferred entries only disappear) + per-thread program-counter invariants, preserved by every step (step_inv) and stable under other threads' steps. Runtime part: real threads under a deterministic scheduler with a switch point at every such access; all schedules with <= 2 (thorough 3) pre-emptions for 7 scenarios; per schedule the results equal the sequential ones, nothing raises, and the global access log equals the Lean model's log for the same schedule. Second scheduler (line boundaries inside the package, sys.settrace): for every ordered pair of values of three scenarios (directly / by name / by predicate registered and unregistered classes, lazily registered stdlib types, dataclasses / attrs / ipython_repr_pretty extras) thread 1 is suspended at its k-th package line, thread 2 prints completely, thread 1 resumes, plus sampled two-pre-emption schedules; every schedule forks from a pristine state; both texts must equal a sequential result.",
+        'text': "Lean theorem C20.linearizable: in the small-step model of pretty_python_value's registry part (one step per access to the deferred dict / singledispatch object, after the F16 repair), for ANY number of threads, ANY classes, ANY starting registry state and EVERY schedule, each finished thread obtained exactly the printer a sequential print obtains; the model is total, so no step can raise. Proof: global invariant (effective registrations constant, deferred entries only disappear) + per-thread program-counter invariants, preserved by every step (step_inv) and stable under other threads' steps. C19.state_inventory (regenerated from the source on every run): the registry is the only state on the pformat path that outlives a call, so the small-step model covers all shared state. Runtime part: real threads under a deterministic scheduler with a switch point at every such access; all schedules with <= 2 (thorough 3) pre-emptions for 7 scenarios; per schedule the results equal the sequential ones, nothing raises, and the global access log equals the Lean model's log for the same schedule. Second scheduler (line boundaries inside the package, sys.settrace): for every ordered pair of values of three scenarios (directly / by name / by predicate registered and unregistered classes, lazily registered stdlib types, dataclasses / attrs / ipython_repr_pretty extras) thread 1 is suspended at its k-th package line, thread 2 prints completely, thread 1 resumes, plus sampled two-pre-emption schedules; every schedule forks from a pristine state; both texts must equal a sequential result.",
         'note': "partial: atomicity granularity = one dict / singledispatch operation (atomic under the GIL); pre-emption inside such an operation, free-threaded builds, concurrent registration and cpprint's global colour palette are not covered",
         'technique': 'Lean 4 proof (invariant over all interleavings of a small-step model) + deterministic-scheduler exploration of real threads with log-level correspondence',
         'design_ref': 'DESIGN.md section 5, C20',
